@@ -176,6 +176,8 @@ CUSTOM = [  # (cls string, constructor-args texts)
     ("pool:c09pool_loaded:DirDupArgs", ["( I1 O0 )"]), ("pool:c09pool_fresh:DirDupArgs", ["( I1 )"]),
     ("pool:c09pool_loaded:Slotted", ["( I1 )"]), ("pool:c09pool_fresh:Slotted", ["( )"]),
     ("pool:c09pool_loaded:BadProp", ["( I1 )"]), ("pool:c09pool_fresh:BadProp", ["( I1 )"]),
+    ("pool:c09pool_lazy:AppError", ["( I1 )"]), ("dyn:c09pool_lazy:LazyErr", ["( I1 )"]), ("dyn:c09pool_lazy:Missing", ["( )"]),
+    ("dyn:concurrent.futures:ProcessPoolExecutor", ["( )"]), ("dyn:concurrent.futures:BrokenExecutor", ["( I1 )"]),
     ("dyn:c09pool_unknown:AppError", ["( I1 )"]), ("dyn:c09pool_loaded:Missing", ["( I1 )"]),
     ("dyn:c09pool_loaded:NotExc", ["( I1 )"]), ("dyn:c09pool_loaded:func", ["( )"]), ("dyn:c09pool_loaded:VALUE", ["( )"]),
     ("dyn:c09pool_fresh:Missing", ["( I1 )"]), ("dyn:c09pool_broken:AppError", ["( I1 )"]), ("dyn:os:error", ["( I1 )"]),
@@ -238,10 +240,10 @@ def gen_specs(r, n_random):
 
 
 # ------------------------------------------------------------------------------------------------ crafted payloads
-MODNAMES = ["builtins", "builtins", "builtins", "c09pool_loaded", "c09pool_fresh", "c09pool_broken", "c09pool_unknown", "",
+MODNAMES = ["builtins", "builtins", "builtins", "c09pool_lazy", "concurrent.futures", "c09pool_loaded", "c09pool_fresh", "c09pool_broken", "c09pool_unknown", "",
             "os", "socket", "exceptions", "a\x00b", "\udc80", "no_such_pkg.sub", ".rel", 5, None, (1, 2), slice(1, 2, 3),
             b"builtins", frozenset(["builtins"]), 1.5]
-CLSNAMES = ["ValueError", "KeyError", "OSError", "IOError", "StopIteration", "SystemExit", "BaseException", "ExceptionGroup",
+CLSNAMES = ["LazyErr", "ProcessPoolExecutor", "Future", "ValueError", "KeyError", "OSError", "IOError", "StopIteration", "SystemExit", "BaseException", "ExceptionGroup",
             "BaseExceptionGroup", "UnicodeDecodeError", "SyntaxError", "BlockingIOError", "int", "object", "print", "dict",
             "__name__", "None", "AppError", "RoError", "NeedsNew", "BaseOnly", "NotExc", "func", "VALUE", "Missing", "error",
             "herror", "", "a\x00", "\ud800", "x.y", 7, None, ("ValueError",), b"ValueError"]
@@ -331,7 +333,7 @@ def observe_load(payload, rf, m, c, slots):
             obj = vinegar.load(payload, rf[0], rf[1], rf[2])
         except Exception as ex:  # noqa
             err = ex
-    res = dict(imp=valtext.canon(tuple(w.attempts)), init=len(ve.canary().INIT), delta=list(w.delta),
+    res = dict(imp=valtext.canon(tuple(w.attempts)), init=len(ve.canary().INIT), code=len(ve.canary().LAZY), delta=list(w.delta),
                imported=list(ve.canary().IMPORTED))
     if err is not None:
         res["out"] = "err " + ve.err_name(err)
@@ -417,7 +419,7 @@ def first_hop(spec, s1, r1):
         obj = vinegar.load(brine.load(brine.dump(vinegar.dump(t, v, tb, sf[0], sf[1]))), rf[0], rf[1], rf[2])
     except Exception:  # noqa
         obj = None
-    for m in [m for m in ("c09pool_fresh", "c09pool_broken") if m in sys.modules]:
+    for m in [m for m in ("c09pool_fresh", "c09pool_broken", "c09pool_lazytarget") if m in sys.modules]:
         sys.modules.pop(m, None)
     ve.reset_canaries()
     return obj if isinstance(obj, BaseException) else None
@@ -512,7 +514,7 @@ class Pair(object):
                 caught = ex
         self.cb._box_exc = self.orig_box
         m, c, slots = m_c_slots()
-        res.update(imp=valtext.canon(tuple(w.attempts)), init=len(ve.canary().INIT), delta=list(w.delta))
+        res.update(imp=valtext.canon(tuple(w.attempts)), init=len(ve.canary().INIT), code=len(ve.canary().LAZY), delta=list(w.delta))
         if "seen" not in res:
             res["seen"] = seen_from_exception(caught, m, c, slots)
             res["exc_seen"] = caught
@@ -540,7 +542,7 @@ class Pair(object):
             except Exception as ex:  # noqa
                 err = ex
         m, c, slots = m_c_slots()
-        res.update(imp=valtext.canon(tuple(w.attempts)), init=len(ve.canary().INIT), delta=list(w.delta))
+        res.update(imp=valtext.canon(tuple(w.attempts)), init=len(ve.canary().INIT), code=len(ve.canary().LAZY), delta=list(w.delta))
         if res["local"] is not None:
             res["seen"] = "local"
         elif err is not None:
@@ -662,7 +664,7 @@ def run_exc_e2e(pair, spec, s, r, sync=True):
         info = cap["info"]
         info.update(m=cap["m"], c=cap["c"])
     else:
-        line = model_line_rt(s, rec0[0], "e", r, "FFmm", "N", "( )", rec0)
+        line = model_line_rt(s, rec0[0], "e", r, "FFmmF", "N", "( )", rec0)
         info = dict(m=t.__module__, c=t.__name__, importable=False, slots={})
     info["exc"] = exc
     return line, obs, info
